@@ -1111,6 +1111,13 @@ func (ex *Exec) evalCall(call *ast.CallExpr, st *State) []Value {
 		fv := ex.eval(call.Fun, st)
 		sig := fv.T.Underlying().(*types.Signature)
 		args := ex.evalArgs(call, sig, st)
+		if fv.Fn == nil {
+			if id, ok := fun.(*ast.Ident); ok {
+				if r, ok := ex.callCallback(id, sig, args, st, call); ok {
+					return r
+				}
+			}
+		}
 		if fv.Fn != nil {
 			if fv.Fn.Lit != nil {
 				return ex.callLit(fv.Fn, args, st, call)
